@@ -62,7 +62,7 @@ for k, v in d["functions"].items():
     elif fn == "slice_iter": m = "SliceIt.restR / renderRest (Debug of the not-yet-yielded slots)"
     elif "serialization" in f:
         m = {"serialize": "serializeR", "deserialize": "deserializeInto", "visit_map": "visitLoop", "visit_seq": "visitLoop",
-             "expecting": "(error text only: not modelled; never reached by a conforming Deserializer)"}[fn]
+             "expecting": "the text after `expected` in serde's invalid-type error (driver op serde_wrong)"}[fn]
     elif tr == "Clone" and t in ("Map", "Set"): m = "cloneInto / cloneLoop"
     elif tr == "Drop" and t == "Map": m = "dropMap"
     elif tr == "Drop" and t == "Drain": m = "drainDrop"
